@@ -47,6 +47,7 @@ def rowOk (rs : List (Nat × ResolvedInst)) (row : List Nat) : Bool :=
     match decodeInstance rest with
     | none => false
     | some (i, ops) =>
+      if i.id = 0 then false else      -- `Inst::kIdNone` is not an instruction (and no row names it)
       match lookupR rs i.id with
       | none => false
       | some R => if exp = 1 then validateR R i ops == .ok else validateR R i ops != .ok
@@ -72,6 +73,9 @@ theorem rowOk_sound (T : SigTables) (rs : List (Nat × ResolvedInst)) (hrs : res
       obtain ⟨i, ops⟩ := p
       rw [hd] at h
       simp only at h
+      by_cases hid : i.id = 0
+      · rw [if_pos hid] at h; exact absurd h (by simp)
+      rw [if_neg hid] at h
       cases hl : lookupR rs i.id with
       | none => rw [hl] at h; exact absurd h (by simp)
       | some R =>
@@ -93,7 +97,7 @@ theorem rowOk_sound (T : SigTables) (rs : List (Nat × ResolvedInst)) (hrs : res
             subst hl
             rw [← e1]
             simpa using this
-        have hv : validate T i ops = validateR R i ops := by unfold validate; rw [hres]
+        have hv : validate T i ops = validateR R i ops := by unfold validate; rw [if_neg hid, hres]
         refine ⟨exp, rest, i, ops, rfl, hd, ?_, ?_⟩
         · intro he; rw [hv]; simpa [he] using h
         · intro he; rw [hv]; simpa [he] using h
